@@ -67,11 +67,11 @@ func genTenantSchedCase(kind string) func(t *rapid.T) TenantSchedCase {
 			c.Tenant = append(c.Tenant, rapid.IntRange(0, 1).Draw(t, "tenant"))
 		}
 		c.Tenant[0], c.Tenant[1] = 0, 1
-		c.OnlyA = kind == "logout" && rapid.Bool().Draw(t, "only-a")
+		c.OnlyA = kind != "attrquery" && rapid.Bool().Draw(t, "only-a")
 		c.Sequential = rapid.IntRange(0, 4).Draw(t, "sequential") == 0
 		if !c.Sequential && rapid.IntRange(0, 3).Draw(t, "slowstorage") != 0 {
 			c.Slow = rapid.IntRange(0, n-1).Draw(t, "slow")
-			c.SlowAt = "storage:" + rapid.SampledFrom([]string{"GetEntityByID", "GetEntityByID", "SetUserinfoWithLoginName", "SetUserinfoWithLoginName", "GetResponseSigningKey"}).Draw(t, "slowat")
+			c.SlowAt = "storage:" + rapid.SampledFrom([]string{"GetEntityByID", "GetEntityByID", "SetUserinfoWithLoginName", "SetUserinfoWithLoginName", "GetResponseSigningKey", "CreateAuthRequest"}).Draw(t, "slowat")
 		}
 		c.Schedule = rapid.SliceOfN(rapid.IntRange(0, 7), 0, 40).Draw(t, "schedule")
 		return c
@@ -79,14 +79,17 @@ func genTenantSchedCase(kind string) func(t *rapid.T) TenantSchedCase {
 }
 
 func tenantSchedRun(c TenantSchedCase) ([]*ev.Violation, []string) {
-	prop := map[string]string{"attrquery": "C12", "logout": "C13"}[c.Kind]
+	prop := map[string]string{"attrquery": "C12", "logout": "C13", "sso": "C02"}[c.Kind]
 	spec := tenantSpec(c.OnlyA)
 	w := mustBuild(spec)
 	wr := func(n *xt.Node) []byte { return xt.Write(n, plainStyle.W) }
 	reqs := make([]obs.HTTPReq, len(c.Tenant))
 	for i, tn := range c.Tenant {
 		var hr obs.HTTPReq
-		if c.Kind == "attrquery" {
+		if c.Kind == "sso" {
+			a := spsim.NewAuthnReq(fmt.Sprintf("_ts-%d", i), tenantEntity)
+			hr, _, _ = spsim.Encode(spec.IdP.Route("sso"), wr(a.Tree(plainStyle)), spsim.Transport{Binding: []string{"post", "redirect"}[i%2], Plus: true, Encoding: A, RelayState: fmt.Sprintf("rs-task-%d", i)}, nil)
+		} else if c.Kind == "attrquery" {
 			q := spsim.NewAttrQuery(fmt.Sprintf("_tq-%d", i), tenantEntity, tenantLogin)
 			hr, _, _ = spsim.Encode(spec.IdP.Route("attribute"), wr(spsim.Envelope(q.QueryTree(plainStyle), "soap")), spsim.Transport{Binding: "soap"}, nil)
 		} else {
@@ -135,6 +138,27 @@ func tenantSchedRun(c TenantSchedCase) ([]*ev.Violation, []string) {
 				add("another-tenants-records", "the reply carries records of the other tenant (%s)", short(strings.TrimSpace(text), 120))
 				break
 			}
+		}
+		if c.Kind == "sso" {
+			registered := tn == 0 || !c.OnlyA
+			var mine []world.Call
+			for _, call := range w.Store.CallsOf("CreateAuthRequest") {
+				if len(call.Args) > 2 && call.Args[2] == fmt.Sprintf("rs-task-%d", i) {
+					mine = append(mine, call)
+				}
+			}
+			wantACS := "https://tenant-" + own + ".sp.example/acs"
+			switch {
+			case !registered && (len(mine) > 0 || rep.Status == 303):
+				add("persisted-for-unknown-provider", "a request whose issuer is not registered under this tenant was accepted (status %d, %d persist calls)", rep.Status, len(mine))
+			case !registered && d.Kind == obs.KindPostForm:
+				add("delivered-to-unregistered-url", "the refusal for a provider unknown to this tenant was posted to %q", d.Target)
+			case registered && (len(mine) != 1 || rep.Status != 303):
+				add("tenant-request-refused", "a valid request of a provider registered under this tenant was not accepted: status %d, %d persist calls: %s", rep.Status, len(mine), short(string(rep.Body), 120))
+			case registered && (mine[0].Args[0] != wantACS || mine[0].Args[1] != world.BindPost):
+				add("persisted-pair-not-registered", "persisted with (%q, %q); the provider's only consumer service under this tenant is (%q, %q)", mine[0].Args[0], mine[0].Args[1], wantACS, world.BindPost)
+			}
+			continue
 		}
 		if c.Kind == "attrquery" {
 			switch {
@@ -191,3 +215,7 @@ func TestC12Tenants(t *testing.T) { tenantSchedTest(t, "C12", c12Rule, "attrquer
 // TestC13Tenants: logout requests of one entity ID under two tenants (registered under both with different logout locations,
 // or under the first only).
 func TestC13Tenants(t *testing.T) { tenantSchedTest(t, "C13", c13Rule, "logout") }
+
+// TestC02Tenants: AuthnRequests of one entity ID under two tenants with different consumer services (or registered under the
+// first only): what is persisted for a request is the pair registered under its own tenant.
+func TestC02Tenants(t *testing.T) { tenantSchedTest(t, "C02", c02Rule, "sso") }
